@@ -163,4 +163,28 @@ theorem C14_at_most_one_start_outside_recurrent_subgraphs (P : Program) (s : St)
   have := ledger h n
   omega
 
+
+/-- **`on_pipeline_start` exactly at the beginning** (all programs, all schedules): the observation log of every execution is
+empty, or begins with `on_pipeline_start` — or, the caller having been cancelled before `chart.run` got its first turn, with
+the return of `CancelledError` —, and `on_pipeline_start` occurs at most once in it -/
+theorem C14_pipeline_start_first_and_once (P : Program) (s : St) (log : List Obs) (h : Exec P s log) :
+    (log = [] ∨ log.head? = some .pstart ∨ log.head? = some (.returned .cancelled)) ∧ cnt evP log ≤ 1 := by
+  refine ⟨?_, (ledger_pipeline h).1⟩
+  rcases first_event h with ⟨h0, _⟩ | h1
+  · exact Or.inl h0
+  · exact Or.inr h1
+
+/-- **`on_pipeline_complete` at most once** for an event manager that does not raise in it (all programs, all schedules) -/
+theorem C14_pipeline_complete_at_most_once (P : Program) (s : St) (log : List Obs) (h : Exec P s log)
+    (hnr : P.cbRaise .pcomplete 0 = none) : cnt evC log ≤ 1 :=
+  (ledger_pipeline h).2 hnr
+
+/-- non-vacuity / sharpness: an event manager that raises in `on_pipeline_complete` on the success path is called twice
+(chart.run's own `except Exception` reports the failure) — the hypothesis of the previous theorem cannot be dropped -/
+example : ∀ (c : Ctx) (s : St) (v : Val) (e : Exc), c.P.cbRaise .pcomplete 0 = some e → e.isException = true →
+    cnt evC (mgrComplete c s [] (.value v)).2 = 2 := by
+  intro c s v e h he
+  simp [mgrComplete, cbCall, h, he, mgrReturn, endTask]
+  split <;> simp [cnt, evC]
+
 end MLPE.Eng
